@@ -55,6 +55,9 @@ pub enum Tok {
     MaxPushId,
     PushPromise,
     H2Reserved,
+    /// a HEADERS frame whose field section cannot be decoded (not part of the enumerated
+    /// alphabet; used by the sampled generators): QPACK_DECOMPRESSION_FAILED, a connection error
+    HeadersBadQpack,
 }
 pub const ALPHABET: [Tok; 11] = [
     Tok::Headers,
@@ -182,6 +185,8 @@ fn tok_bytes(t: Tok, k: usize, first_headers: bool, side_is_server: bool) -> Vec
             rf::frame(rf::T_PUSH_PROMISE, &p)
         }
         Tok::H2Reserved => rf::frame(*[0x2u64, 0x6, 0x8, 0x9].get(k % 4).unwrap(), &[0, 0, 0, 0, 1]),
+        // dynamic-table reference without a table / static index out of range / string cut short
+        Tok::HeadersBadQpack => raw::headers_frame(*[&[0x00u8, 0x00, 0x80][..], &[0x00, 0x00, 0xff, 0x24], &[0x00, 0x00, 0x23, 0x61, 0x62]].get(k % 3).unwrap()),
     }
 }
 
@@ -229,6 +234,9 @@ pub fn expected(seq: &[Tok], ending: Ending, server: bool) -> Expected {
                 if *t == Tok::Headers {
                     steps.push(Step::Head);
                     st = St::Body;
+                } else if *t == Tok::HeadersBadQpack {
+                    steps.push(Step::ConnErr(rf::QPACK_DECOMPRESSION_FAILED));
+                    return Expected { steps, dont_care: None };
                 } else {
                     steps.push(Step::ConnErr(rf::H3_FRAME_UNEXPECTED));
                     return Expected { steps, dont_care: None };
@@ -241,6 +249,19 @@ pub fn expected(seq: &[Tok], ending: Ending, server: bool) -> Expected {
                     flush(&mut steps, &mut body);
                     steps.push(Step::EndOfBody);
                     st = St::After;
+                }
+                Tok::HeadersBadQpack => {
+                    // trailers that cannot be decoded: a connection error once the application
+                    // asks for them. Judged when nothing but unknown frames and the end of the
+                    // stream follow; otherwise the sequence error may come first
+                    flush(&mut steps, &mut body);
+                    steps.push(Step::EndOfBody);
+                    let rest_is_quiet = seq[k + 1..].iter().all(|t| matches!(t, Tok::Unknown0 | Tok::UnknownN));
+                    if rest_is_quiet && ending == Ending::Fin {
+                        steps.push(Step::ConnErr(rf::QPACK_DECOMPRESSION_FAILED));
+                        return Expected { steps, dont_care: None };
+                    }
+                    return Expected { steps, dont_care: Some("what follows undecodable trailers") };
                 }
                 _ => {
                     flush(&mut steps, &mut body);
@@ -655,6 +676,8 @@ fn run_case(gen: &str, index: u64, seed: u64, _tier: Tier, rep: &mut Report) {
                     if rng.chance(2, 3) {
                         if i == 0 {
                             *rng.pick(&[Tok::Headers, Tok::Unknown0, Tok::UnknownN])
+                        } else if rng.chance(1, 12) {
+                            Tok::HeadersBadQpack
                         } else {
                             *rng.pick(&[Tok::DataN, Tok::Data0, Tok::DataN, Tok::Unknown0, Tok::UnknownN, Tok::Headers])
                         }
